@@ -31,6 +31,6 @@ CFG = {
              'what stays unproved is that no store goes through the alias of the string; '
              'every StrCmpUpto case is compared with CmpUpto on the same bytes and the inputs are checked unchanged'],
  'explanation': 'Model/Bitstr32.v makes the int32 arithmetic of New/Len explicit (wraps); Model/Bitstr.v restates New/Cmp/cmpBytes/CmpUpto/Len with the same branches; Spec/BitstrSpec.v defines the bit string '
-                'B s f t, its canonical encoding encB and uses bits_cmp (lexicographic, proper prefix first); Properties/C09.v proves '
+                'B s f t, its canonical encoding encB and uses bits_cmp (lexicographic, proper prefix first); Widened: Spec/BitstrSearchSpec.v (sorted keys, non-decreasing results), Spec/BitstrDecodeSpec.v (wf_enc = which byte strings are encodings, decB = the bit string one denotes); Proofs/Bitstr{Search,Decode,32}Proofs.v. Properties/C09.v proves '
                 'New = encB o B and, for arbitrary bit lists, Len/Cmp/CmpUpto of encodings = length / bits_cmp / truncated bits_cmp.',
 }
